@@ -58,30 +58,10 @@ struct Base {
 }
 
 fn fam_id(f: &Family) -> Value {
-    match f {
-        Family::GenProd { m, p, inc } => json!({"m": m, "p": p, "inc": inc.iter().map(|r| r.to_vec()).collect::<Vec<_>>()}),
-        o => json!(o.name()),
-    }
+    f.to_json()
 }
 fn fam_parse(v: &Value) -> Family {
-    if let Some(s) = v.as_str() {
-        return match s {
-            "Exp1Off" => Family::Exp1Off,
-            "Exp2Off" => Family::Exp2Off,
-            "Exp3" => Family::Exp3,
-            "GaussDecayOff" => Family::GaussDecayOff,
-            "OLeary" => Family::OLeary,
-            o if o.starts_with("ExpN") => Family::ExpN(o[4..].parse().unwrap()),
-            o => panic!("family {}", o),
-        };
-    }
-    let mut inc = [[false; 3]; 3];
-    for (j, r) in v["inc"].as_array().unwrap().iter().enumerate() {
-        for (k, b) in r.as_array().unwrap().iter().enumerate() {
-            inc[j][k] = b.as_bool().unwrap();
-        }
-    }
-    Family::GenProd { m: v["m"].as_u64().unwrap() as usize, p: v["p"].as_u64().unwrap() as usize, inc }
+    Family::from_json(v)
 }
 fn pos_json(p: &Pos) -> Value {
     match p {
